@@ -91,7 +91,11 @@ func genGrammar(r *rand.Rand, o genOpts) (G []gnode, root int, nts []int) {
 		case 11:
 			return b.add(gnode{K: "seq", Mode: []string{"many", "many1"}[r.Intn(2)], Kids: []int{atom(depth + 1)}})
 		case 12:
-			return b.add(gnode{K: "seq", Mode: []string{"sepby", "sepby1"}[r.Intn(2)], Kids: []int{atom(depth + 1), term()}})
+			sep := term()
+			if r.Intn(3) == 0 { // a separator of more than one terminal
+				sep = b.add(gnode{K: "seq", Mode: "of", Kids: []int{sep, term()}})
+			}
+			return b.add(gnode{K: "seq", Mode: []string{"sepby", "sepby1"}[r.Intn(2)], Kids: []int{atom(depth + 1), sep}})
 		case 13:
 			return b.add(gnode{K: "seq", Mode: "try", Kids: []int{atom(depth + 1), atom(depth + 1), atom(depth + 1)}})
 		case 14:
